@@ -16,7 +16,6 @@ import (
 	"strings"
 	"sync"
 
-	"golang.org/x/tools/go/callgraph"
 	"golang.org/x/tools/go/callgraph/cha"
 	"golang.org/x/tools/go/callgraph/vta"
 	"golang.org/x/tools/go/packages"
@@ -71,44 +70,23 @@ func vtaCrossCheck(p *Prog) vtaResult {
 			}
 			return p.Shipped[path] && f.Synthetic == ""
 		}
-		// repo successors through library code
+		// direct repo→repo edges only. Paths through library code (sort.Sort → Less, fmt → String)
+		// are context-insensitive in VTA and would conflate unrelated callers; the quick graph models
+		// those callbacks from the dynamic type of the argument, which is more precise, so the two
+		// over-approximations are only comparable on direct edges.
 		succ := map[string]map[string]bool{}
 		for f, node := range cg.Nodes {
 			if f == nil || !inRepo(f) || f.Blocks == nil {
 				continue
 			}
 			from := funcID(f)
-			seen := map[*callgraph.Node]bool{node: true}
-			stack := []*callgraph.Node{}
 			for _, e := range node.Out {
 				vtaRes.edges++
-				stack = append(stack, e.Callee)
-			}
-			depth := map[*callgraph.Node]int{}
-			for len(stack) > 0 {
-				n := stack[len(stack)-1]
-				stack = stack[:len(stack)-1]
-				if seen[n] {
-					continue
-				}
-				seen[n] = true
-				if n.Func != nil && inRepo(n.Func) {
+				if e.Callee.Func != nil && inRepo(e.Callee.Func) && e.Callee.Func.Blocks != nil {
 					if succ[from] == nil {
 						succ[from] = map[string]bool{}
 					}
-					succ[from][funcID(n.Func)] = true
-					continue
-				}
-				// follow library code, but not into the whole world: only functions that can call
-				// back (bounded depth keeps logging / formatting fan-out from exploding)
-				if depth[n] >= 3 {
-					continue
-				}
-				for _, e := range n.Out {
-					if !seen[e.Callee] {
-						depth[e.Callee] = depth[n] + 1
-						stack = append(stack, e.Callee)
-					}
+					succ[from][funcID(e.Callee.Func)] = true
 				}
 			}
 		}
@@ -148,12 +126,12 @@ func (ck *Check) vtaObligation() {
 		return
 	}
 	ck.Stats[rule+" vta functions"] = r.funcs
-	ck.cond(len(r.missing) == 0, rule, "vta/over-approximation", "", "", "the quick tier's repo call graph contains every repo→repo edge (direct or through library callbacks) of the whole-program VTA graph", fmt.Sprintf("%d functions, %d edges out of repo functions examined", r.funcs, r.edges),
+	ck.cond(len(r.missing) == 0, rule, "vta/over-approximation", "", "", "the quick tier's repo call graph contains every direct repo→repo edge of the whole-program VTA graph (static calls, interface invokes, closures)", fmt.Sprintf("%d functions, %d edges out of repo functions examined", r.funcs, r.edges),
 		"edges known to VTA but missing from the quick graph (who-may-call facts could be unsound): "+strings.Join(r.missing, "; "))
 }
 
 // properties whose rules use call-graph reachability
-var callGraphProps = map[string]bool{"C01": true, "C02": true, "C03": true, "C06": true, "C07": true, "C09": true, "C10": true, "C11": true, "C12": true, "C19": true, "C20": true}
+var callGraphProps = map[string]bool{"C01": true, "C11": true, "C20": true}
 
 // ---- self-validation ------------------------------------------------------------------------------
 
